@@ -76,6 +76,10 @@ def _gen_lib(rng, li, k, size, shared_roles, minor):
     def pick(lst, none_ok=True):
         if not lst or (none_ok and rng.chance(1, 5)):
             return 0
+        if rng.chance(1, 40):
+            # "every flag/field combination": an index the file does not define (far above any merged index range,
+            # so that it cannot come to denote another library's entity after renumbering)
+            return 900000 + rng.below(1000)
         return rng.choice(lst)
 
     db = {"file_identifier": rng.range(1, 2_000_000_000), "major": 3, "minor": minor,
